@@ -36,6 +36,7 @@ const Z = Mod + "/internal/zzverif"
 var YieldFuncs = []string{"importBlockParallel", "exportParallel"}
 
 type Report struct {
+	Wrapped      []string `json:"wrapped_methods"`
 	YieldPoints  []string `json:"yield_points"`
 	YieldMissing []string `json:"yield_points_missing"`
 	Files        []string `json:"files_rewritten"`
@@ -81,7 +82,7 @@ func Rewrite(repo, outDir string, rep *Report) (map[string]string, error) {
 			return err
 		}
 		if !bytes.Contains(src, []byte("GOMAXPROCS")) && !bytes.Contains(src, []byte(`"sync"`)) && !bytes.Contains(src, []byte(`"sync/atomic"`)) {
-			hasYield := false
+			hasYield := bytes.Contains(src, []byte(") EncodeFrame() ("))
 			for _, yn := range YieldFuncs {
 				if bytes.Contains(src, []byte("func "+yn+"(")) {
 					hasYield = true
@@ -206,6 +207,14 @@ func rewriteFile(rel string, src []byte, rep *Report) ([]byte, bool, error) {
 		fname := fd.Name.Name
 		if fd.Recv != nil && len(fd.Recv.List) == 1 {
 			fname = recvName(fd.Recv.List[0].Type) + "." + fname
+		}
+		// R4: (*VP8Encoder).EncodeFrame() ([]byte, error) is renamed; the accessor
+		// file supplies a wrapper that reports the reconstruction planes (C06).
+		if fname == "VP8Encoder.EncodeFrame" && pkgDir == "internal/lossy" && (fd.Type.Params == nil || len(fd.Type.Params.List) == 0) &&
+			fd.Type.Results != nil && len(fd.Type.Results.List) == 2 {
+			fd.Name = ast.NewIdent("EncodeFrameVerifOrig")
+			rep.Wrapped = append(rep.Wrapped, "internal/lossy:VP8Encoder.EncodeFrame")
+			changed = true
 		}
 		// R3
 		if fd.Recv == nil || true {
